@@ -61,7 +61,9 @@ def attack_scripts(prop, module):
     out = []
     for f in sorted(glob.glob(os.path.join(tlc.SPEC, 'attacks', prop, '%s-*.json' % module))):
         a = json.load(open(f))
-        out.append({'id': a['id'], 'steps': a['steps'], 'attack': a.get('mutant')})
+        e = dict(a)
+        e['attack'] = a.get('mutant') or a.get('target')
+        out.append(e)
     return out
 
 
